@@ -116,9 +116,41 @@ func rangeSubject(d *declInfo, s ast.Stmt) string {
 			}
 		}
 		if id, ok := x.(*ast.Ident); ok {
+			// a local bound once to a lookup or field (`hs, ok := index[k]`, `xs := n.Items`) ranges
+			// the same collection as the expression it was bound to
+			if o := objOf(d.pkg, id); o != nil {
+				var def ast.Expr
+				n := 0
+				ast.Inspect(d.fd.Body, func(m ast.Node) bool {
+					as, isAs := m.(*ast.AssignStmt)
+					if !isAs || len(as.Lhs) == 0 || len(as.Rhs) == 0 {
+						return true
+					}
+					for i, lh := range as.Lhs {
+						if objOf(d.pkg, lh) == o {
+							n++
+							if len(as.Rhs) == len(as.Lhs) {
+								def = as.Rhs[i]
+							} else if i == 0 {
+								def = as.Rhs[0]
+							}
+						}
+					}
+					return true
+				})
+				if n == 1 && def != nil {
+					switch def.(type) {
+					case *ast.IndexExpr, *ast.SelectorExpr:
+						return rangeSubject(d, &ast.RangeStmt{X: def})
+					}
+				}
+			}
 			return id.Name
 		}
-		if t := d.pkg.TypesInfo.TypeOf(l.X); t != nil {
+		if t := d.pkg.TypesInfo.TypeOf(x); t != nil {
+			if tup, isTup := t.(*types.Tuple); isTup && tup.Len() > 0 {
+				t = tup.At(0).Type() // comma-ok lookup
+			}
 			return types.TypeString(t, func(p *types.Package) string { return p.Name() })
 		}
 	case *ast.ForStmt:
@@ -277,6 +309,20 @@ func accumulateSteps(d *declInfo, loop ast.Stmt, body *ast.BlockStmt) []accStep 
 			}
 		case *ast.ExprStmt:
 			if ce, ok := s.X.(*ast.CallExpr); ok {
+				// a helper of the module that writes through one of its parameters: the call is the
+				// accumulate step when that argument outlives the iteration
+				if f, _ := typeutil.Callee(info, ce).(*types.Func); f != nil && f.Pkg() != nil && strings.HasPrefix(f.Pkg().Path(), modPath+"/") {
+					if _, isSel := ce.Fun.(*ast.SelectorExpr); !isSel || f.Type().(*types.Signature).Recv() == nil {
+						for _, j := range paramsWritten(f, 0) {
+							if j < len(ce.Args) {
+								if o := baseObj(d, ce.Args[j]); o != nil && (declaredOutside(o, loop) || !builtInLoop(d, o, loop)) {
+									out = append(out, accStep{s, "call " + f.Name() + " (writes through its parameter)"})
+									break
+								}
+							}
+						}
+					}
+				}
 				if sel, ok := ce.Fun.(*ast.SelectorExpr); ok {
 					f, _ := typeutil.Callee(info, ce).(*types.Func)
 					if f != nil && f.Type().(*types.Signature).Recv() != nil {
@@ -549,6 +595,10 @@ func (c *Ctx) classifyAtom0(d *declInfo, li *loopInfo, ifs *ast.IfStmt, a ast.Ex
 		text = "!(" + text + ")"
 	}
 	defs := singleDefs(d.pkg, d.fd.Body)
+	// a map[K]bool used as a set: `if seen[k]` / `if !seen[k]`
+	if ix := boolSetLookup(d, a); ix != nil {
+		return c.classifyMembership(d, li, ix, !negated, text)
+	}
 	// comma-ok lookup in the if's init: `_, ok := m[k]`
 	if id, ok := a.(*ast.Ident); ok {
 		as, ok2 := ifs.Init.(*ast.AssignStmt)
@@ -571,62 +621,7 @@ func (c *Ctx) classifyAtom0(d *declInfo, li *loopInfo, ifs *ast.IfStmt, a ast.Ex
 		if ok2 && len(as.Lhs) == 2 && len(as.Rhs) == 1 {
 			if objOf(d.pkg, as.Lhs[1]) == objOf(d.pkg, id) {
 				if ix, ok3 := as.Rhs[0].(*ast.IndexExpr); ok3 {
-					present := !negated // skipping when key present
-					mexpr := types.ExprString(ix.X)
-					kexpr := types.ExprString(ix.Index)
-					// does this loop insert into the same map?
-					var inserted []string
-					ast.Inspect(li.stmt, func(n ast.Node) bool {
-						if s, ok := n.(*ast.AssignStmt); ok {
-							for _, l := range s.Lhs {
-								if lx, ok := l.(*ast.IndexExpr); ok && types.ExprString(lx.X) == mexpr {
-									inserted = append(inserted, types.ExprString(lx.Index))
-								}
-							}
-						}
-						return true
-					})
-					mt := info.TypeOf(ix.X)
-					if mt != nil {
-						if nt, ok := mt.(*types.Named); ok && strings.HasSuffix(nt.Obj().Name(), "_name") {
-							return "unknown-enum-number", text + " — enum number without a generated name"
-						}
-					}
-					var mv types.Object = baseObj(d, ix.X)
-					if sel, isSel := ix.X.(*ast.SelectorExpr); isSel && info.Selections[sel] == nil {
-						mv = info.Uses[sel.Sel]
-					}
-					if pv, ok := mv.(*types.Var); ok && pv.Parent() != nil && pv.Pkg() != nil && pv.Parent() == pv.Pkg().Scope() {
-						if strings.HasSuffix(pv.Name(), "_name") || strings.HasSuffix(pv.Name(), "_value") {
-							if present {
-								return "known-enum-number", text
-							}
-							return "unknown-enum-number", text + " — enum number without a generated name"
-						}
-					}
-					// which index is it? (nodes / roots / edges of an operand, or a set filled by hand)
-					qual := ""
-					if io := originOfIndex(d, mv); io.kind != "" && io.kind != "set-of" {
-						qual = "(" + io.kind + ")"
-					}
-					if present {
-						if len(inserted) == 0 {
-							return "present-in-index" + qual, fmt.Sprintf("skips when %s is a key of %s (index not grown by this loop)", kexpr, mexpr)
-						}
-						same := true
-						for _, k := range inserted {
-							same = same && k == kexpr
-						}
-						if same {
-							// keyed by the element itself (the ranged value), not by one of its attributes?
-							if rs, isRange := li.stmt.(*ast.RangeStmt); isRange && rs.Value != nil && types.ExprString(rs.Value) == kexpr {
-								return "dedupe(identity)", fmt.Sprintf("skips when the element %s itself was already inserted into %s by this loop", kexpr, mexpr)
-							}
-							return "dedupe", fmt.Sprintf("skips when %s was already inserted into %s by this loop (test and insert use the same key)", kexpr, mexpr)
-						}
-						return "placement-dependent", fmt.Sprintf("skips when %s is a key of %s while this loop inserts %v: the outcome depends on the order of the list", kexpr, mexpr, inserted)
-					}
-					return "absent-from-index" + qual, fmt.Sprintf("skips when %s is not a key of %s", kexpr, mexpr)
+					return c.classifyMembership(d, li, ix, !negated, text)
 				}
 			}
 		}
@@ -1048,6 +1043,25 @@ func (c *Ctx) enumSkipPaths(d *declInfo, li *loopInfo, labels map[string]ast.Stm
 			if !relevant(x) {
 				return []outcome{{st: in}}
 			}
+			// `if X == A {…} else if X == B {…} else {…}` is a switch on X written as a chain
+			if subj, arms, deflt, isChain := eqChain(d, x); isChain {
+				tagT := "?"
+				if t := d.pkg.TypesInfo.TypeOf(subj); t != nil {
+					tagT = types.TypeString(t, func(p *types.Package) string { return p.Name() })
+				}
+				var res []outcome
+				for _, a := range arms {
+					g := guard{pos: a.body.Pos(), class: "switch-case(" + tagT + ":" + exprList([]ast.Expr{a.label}) + ")", desc: "branch " + types.ExprString(a.label) + " of the comparison chain on " + tagT}
+					res = append(res, run(a.body.List, withDecision(in, []guard{g}))...)
+				}
+				g := guard{pos: x.Pos(), class: "switch-default(" + tagT + ")", desc: "no branch of the comparison chain on " + tagT + " matches"}
+				if deflt != nil {
+					res = append(res, one(deflt, withDecision(in, []guard{g}))...)
+				} else {
+					res = append(res, outcome{st: withDecision(in, []guard{g})})
+				}
+				return res
+			}
 			var res []outcome
 			for _, alt := range c.classifyCond(d, li, x, true) {
 				res = append(res, run(x.Body.List, withDecision(in, alt))...)
@@ -1071,6 +1085,37 @@ func (c *Ctx) enumSkipPaths(d *declInfo, li *loopInfo, labels map[string]ast.Stm
 					tagT = types.TypeString(t, func(p *types.Package) string { return p.Name() })
 				}
 			}
+			// a tagless switch whose cases all compare one subject with constants is the tagged
+			// switch on that subject
+			taglessLabels := map[*ast.CaseClause]ast.Expr{}
+			if x.Tag == nil {
+				var subj string
+				all := true
+				for _, cc := range x.Body.List {
+					cl := cc.(*ast.CaseClause)
+					if cl.List == nil {
+						continue
+					}
+					if len(cl.List) != 1 {
+						all = false
+						break
+					}
+					sx, lbl, ok := eqAtom(d, cl.List[0])
+					if !ok || (subj != "" && normText(types.ExprString(sx)) != subj) {
+						all = false
+						break
+					}
+					subj = normText(types.ExprString(sx))
+					taglessLabels[cl] = lbl
+					if t := d.pkg.TypesInfo.TypeOf(sx); t != nil {
+						tagT = types.TypeString(t, func(p *types.Package) string { return p.Name() })
+					}
+				}
+				if !all || subj == "" {
+					taglessLabels = map[*ast.CaseClause]ast.Expr{}
+					tagT = "bool"
+				}
+			}
 			var res []outcome
 			hasDefault := false
 			for _, cc := range x.Body.List {
@@ -1078,6 +1123,9 @@ func (c *Ctx) enumSkipPaths(d *declInfo, li *loopInfo, labels map[string]ast.Stm
 				label := "default"
 				if cl.List != nil {
 					label = exprList(cl.List)
+					if lbl, ok := taglessLabels[cl]; ok {
+						label = exprList([]ast.Expr{lbl})
+					}
 				} else {
 					hasDefault = true
 				}
@@ -1146,4 +1194,227 @@ func (c *Ctx) enumSkipPaths(d *declInfo, li *loopInfo, labels map[string]ast.Stm
 		}
 		li.paths = append(li.paths, skipPath{end: end, endPos: pos, decisions: o.st.decisions})
 	}
+}
+
+// paramsWritten lists the indices of the (non-receiver) parameters of a module function through
+// which the function writes: p.F = …, p[i] = …, *p = …, p.F = append(p.F, …), or passing p on to
+// another module function that does (two levels).
+func paramsWritten(f *types.Func, depth int) []int {
+	if theProgram == nil || depth > 2 {
+		return nil
+	}
+	fd, pk := theProgram.FuncDecl(objName(f))
+	if fd == nil || fd.Body == nil {
+		return nil
+	}
+	d := &declInfo{fd: fd, pkg: pk, obj: f, name: objName(f)}
+	idx := map[types.Object]int{}
+	k := 0
+	for _, fl := range fd.Type.Params.List {
+		for _, n := range fl.Names {
+			idx[pk.TypesInfo.Defs[n]] = k
+			k++
+		}
+		if len(fl.Names) == 0 {
+			k++
+		}
+	}
+	seen := map[int]bool{}
+	ast.Inspect(fd.Body, func(n ast.Node) bool {
+		switch s := n.(type) {
+		case *ast.FuncLit:
+			return false
+		case *ast.AssignStmt:
+			for _, l := range s.Lhs {
+				if _, bare := l.(*ast.Ident); bare {
+					continue
+				}
+				if j, ok := idx[baseObj(d, l)]; ok {
+					seen[j] = true
+				}
+			}
+		case *ast.CallExpr:
+			if g, _ := typeutil.Callee(pk.TypesInfo, s).(*types.Func); g != nil && g != f && g.Pkg() != nil && strings.HasPrefix(g.Pkg().Path(), modPath+"/") {
+				for _, j := range paramsWritten(g, depth+1) {
+					if j < len(s.Args) {
+						if jj, ok := idx[baseObj(d, s.Args[j])]; ok {
+							seen[jj] = true
+						}
+					}
+				}
+			}
+		}
+		return true
+	})
+	var out []int
+	for j := range seen {
+		out = append(out, j)
+	}
+	sort.Ints(out)
+	return out
+}
+
+// classifyMembership names a skip decided by the presence (or absence) of ix.Index in the map ix.X.
+func (c *Ctx) classifyMembership(d *declInfo, li *loopInfo, ix *ast.IndexExpr, present bool, text string) (string, string) {
+	info := d.pkg.TypesInfo
+	mexpr := types.ExprString(ix.X)
+	kexpr := types.ExprString(ix.Index)
+	// does this loop insert into the same map?
+	var inserted []string
+	ast.Inspect(li.stmt, func(n ast.Node) bool {
+		if s, ok := n.(*ast.AssignStmt); ok {
+			for _, l := range s.Lhs {
+				if lx, ok := l.(*ast.IndexExpr); ok && types.ExprString(lx.X) == mexpr {
+					inserted = append(inserted, types.ExprString(lx.Index))
+				}
+			}
+		}
+		return true
+	})
+	mt := info.TypeOf(ix.X)
+	if mt != nil {
+		if nt, ok := mt.(*types.Named); ok && strings.HasSuffix(nt.Obj().Name(), "_name") {
+			return "unknown-enum-number", text + " — enum number without a generated name"
+		}
+	}
+	var mv types.Object = baseObj(d, ix.X)
+	if sel, isSel := ix.X.(*ast.SelectorExpr); isSel && info.Selections[sel] == nil {
+		mv = info.Uses[sel.Sel]
+	}
+	if pv, ok := mv.(*types.Var); ok && pv.Parent() != nil && pv.Pkg() != nil && pv.Parent() == pv.Pkg().Scope() {
+		if strings.HasSuffix(pv.Name(), "_name") || strings.HasSuffix(pv.Name(), "_value") {
+			if present {
+				return "known-enum-number", text
+			}
+			return "unknown-enum-number", text + " — enum number without a generated name"
+		}
+	}
+	// which index is it? (nodes / roots / edges of an operand, or a set filled by hand)
+	qual := ""
+	if io := originOfIndex(d, mv); io.kind != "" && io.kind != "set-of" {
+		qual = "(" + io.kind + ")"
+	}
+	if present {
+		if len(inserted) == 0 {
+			return "present-in-index" + qual, fmt.Sprintf("skips when %s is a key of %s (index not grown by this loop)", kexpr, mexpr)
+		}
+		same := true
+		for _, k := range inserted {
+			same = same && k == kexpr
+		}
+		if same {
+			// keyed by the element itself (the ranged value), not by one of its attributes?
+			if rs, isRange := li.stmt.(*ast.RangeStmt); isRange && rs.Value != nil && types.ExprString(rs.Value) == kexpr {
+				return "dedupe(identity)", fmt.Sprintf("skips when the element %s itself was already inserted into %s by this loop", kexpr, mexpr)
+			}
+			return "dedupe", fmt.Sprintf("skips when %s was already inserted into %s by this loop (test and insert use the same key)", kexpr, mexpr)
+		}
+		return "placement-dependent", fmt.Sprintf("skips when %s is a key of %s while this loop inserts %v: the outcome depends on the order of the list", kexpr, mexpr, inserted)
+	}
+	return "absent-from-index" + qual, fmt.Sprintf("skips when %s is not a key of %s", kexpr, mexpr)
+}
+
+// boolSetLookup: e is m[k] on a map[K]bool used as a set — every store into m in the function
+// assigns the constant true, so m[k] is exactly "k is a member".
+func boolSetLookup(d *declInfo, e ast.Expr) *ast.IndexExpr {
+	ix, ok := e.(*ast.IndexExpr)
+	if !ok {
+		return nil
+	}
+	mt := d.pkg.TypesInfo.TypeOf(ix.X)
+	if mt == nil {
+		return nil
+	}
+	m, isMap := mt.Underlying().(*types.Map)
+	if !isMap {
+		return nil
+	}
+	if b, isB := m.Elem().Underlying().(*types.Basic); !isB || b.Kind() != types.Bool {
+		return nil
+	}
+	mtext := normText(types.ExprString(ix.X))
+	okSet := true
+	ast.Inspect(d.fd.Body, func(n ast.Node) bool {
+		as, isAs := n.(*ast.AssignStmt)
+		if !isAs || len(as.Lhs) != len(as.Rhs) {
+			return true
+		}
+		for i, l := range as.Lhs {
+			if lx, isIx := l.(*ast.IndexExpr); isIx && normText(types.ExprString(lx.X)) == mtext {
+				if v, isC := constOf(d.pkg, as.Rhs[i]); !isC || v.c.String() != "true" {
+					okSet = false
+				}
+			}
+		}
+		return true
+	})
+	if !okSet {
+		return nil
+	}
+	return ix
+}
+
+type chainArm struct {
+	label ast.Expr
+	body  *ast.BlockStmt
+}
+
+// eqAtom: e is `X == C` (or `C == X`) with C a compile-time constant.
+func eqAtom(d *declInfo, e ast.Expr) (subject, label ast.Expr, ok bool) {
+	for {
+		if p, isP := e.(*ast.ParenExpr); isP {
+			e = p.X
+			continue
+		}
+		break
+	}
+	be, isB := e.(*ast.BinaryExpr)
+	if !isB || be.Op != token.EQL {
+		return nil, nil, false
+	}
+	if _, isC := constOf(d.pkg, be.Y); isC {
+		if _, both := constOf(d.pkg, be.X); !both {
+			return be.X, be.Y, true
+		}
+	}
+	if _, isC := constOf(d.pkg, be.X); isC {
+		return be.Y, be.X, true
+	}
+	return nil, nil, false
+}
+
+// eqChain recognises `if X == A {…} else if X == B {…} [else {…}]` with at least two arms, no
+// init statements, one subject.
+func eqChain(d *declInfo, ifs *ast.IfStmt) (subject ast.Expr, arms []chainArm, deflt ast.Stmt, ok bool) {
+	cur := ifs
+	subj := ""
+	for {
+		if cur.Init != nil {
+			return nil, nil, nil, false
+		}
+		sx, lbl, isEq := eqAtom(d, cur.Cond)
+		if !isEq {
+			return nil, nil, nil, false
+		}
+		t := normText(types.ExprString(sx))
+		if subj != "" && t != subj {
+			return nil, nil, nil, false
+		}
+		subj = t
+		subject = sx
+		arms = append(arms, chainArm{lbl, cur.Body})
+		switch e := cur.Else.(type) {
+		case *ast.IfStmt:
+			cur = e
+			continue
+		case nil:
+		default:
+			deflt = e
+		}
+		break
+	}
+	if len(arms) < 2 {
+		return nil, nil, nil, false
+	}
+	return subject, arms, deflt, true
 }
